@@ -194,7 +194,12 @@ def run_mutant(unit, text, m, idx, rlimit=40, base_errors=frozenset()):
     name = "%s_m%d" % (unit, idx)
     path = os.path.join(d, name + ".rs")
     with open(path, "w") as fh:
-        fh.write(text[:m["pa"]] + m["rep"] + text[m["pb"]:])
+        orig = text[m["pa"]:m["pb"]]
+        rep = m["rep"]
+        pad = orig.count("\n") - rep.count("\n")
+        if pad > 0:
+            rep = rep + "\n" * pad     # later errors keep their line numbers (base errors are matched by position)
+        fh.write(text[:m["pa"]] + rep + text[m["pb"]:])
     from .run import run_with_timeout
     p = run_with_timeout(["verus", name + ".rs", "--error-format=json", "--multiple-errors", "40", "--rlimit", str(rlimit)],
                          d, None, int(os.environ.get("SOSV_MUTANT_TIMEOUT", "240")))
@@ -226,7 +231,7 @@ def run_mutant(unit, text, m, idx, rlimit=40, base_errors=frozenset()):
         return "base", msgs
     if msgs:
         low = " ".join(msgs).lower()
-        if any(v in low for v in ("postcondition", "precondition", "assertion", "invariant", "overflow", "decreases", "underflow")):
+        if any(v in low for v in ("postcondition", "post-condition", "precondition", "pre-condition", "assertion", "invariant", "overflow", "decreases", "underflow")):
             status = "killed"
         elif "rlimit" in low or "resource limit" in low:
             status = "undecided"
